@@ -7,6 +7,9 @@ ROUND="${1:-1}"
 if [ "$ROUND" = "1" ]; then
   ROOT=/tmp/seed
   SPECS="C01-offset-guard-lenient:C01 C02-vendor-skip-count:C02 C03-repeated-message-type:C03 C04-offset-u16-trunc:C04 C05-reserved-inside-version:C05 C06-zero-offset-flag:C06 C07-avp-length-u16-cast:C07 C08-offset-pad-extent-clamp:C08 C09-length-position-u16:C09 C10-result-msg-strip-nul:C10 C11-align-pad-extra-block:C11 C12-align-pad-extra-block:C12 C13-reveal-len-off-by-one-clamped:C13 C14-control-guard-offset-bit:C14 C15-hidden-vendor-accepted:C15 C18-bytes-refusal-drains:C18 C19-threadlocal-scratch-leftover:C19 C20-hidden-vendor-not-named:C20"
+elif [ "$ROUND" = "3" ]; then
+  ROOT=/tmp/seed3
+  SPECS="C01-control-length-u16-add-overflow:C01 C02-reveal-chunk-granular-bound:C02 C03-resultcode-msg-fffd-rejected:C03 C04-data-length-patched-at-absolute-2:C04 C05-data-header-length-u16-wrap:C05 C06-length-member-12-drops-avps:C06 C07-writer-default-method-native-endian:C07 C08-control-guard-len-as-u16:C08 C09-backpatch-skipped-when-length-equals-end:C09 C10-encoder-refuses-exactly-65535:C10 C11-scratch-buffer-241-250-secret-panics:C11 C12-scratch-buffer-241-250-secret-truncates:C12 C13-resultcode-all-nul-message-panics:C13 C14-try-read-skips-optional-vendor-avps:C14 C15-greedy-stops-after-256-records:C15 C18-bytes-position-plus-length-overflow:C18 C19-secret-prefix-memo-keyed-by-address:C19 C20-q931-dangling-lead-octet-accepted:C20"
 else
   ROOT=/tmp/seed2
   SPECS="C01-resultcode-error-guard-weakened:C01 C02-stale-length-offset-check:C02 C03-avp-count-bound-8-octets:C03 C04-zero-offset-flag-omitted:C04 C05-hidden-vendor-accepted-2:C05 C06-header-length-from-get-length-chars:C06 C07-encoder-trusts-nonzero-length:C07 C08-reserved-flag-bit-leaks-into-length:C08 C09-length-bits-from-page-difference:C09 C10-zlb-stale-length:C10 C11-reveal-rejects-empty-value:C11 C12-hide-length-subfield-layout:C12 C13-reveal-lower-bound-lost:C13 C14-unused-rejects-slack-octets:C14 C15-unknown-avp-without-m-dropped:C15 C18-overwrite-at-zero-saturating-guard:C18 C19-global-strict-reserved-switch:C19 C20-bare-error-type-not-read:C20"
